@@ -162,7 +162,9 @@ def plan(rng, tier):
         elif r < 0.40:
             def st():
                 return sorted(set(g.keylist(0, 5)))
-            op = ["resolve", st(), st(), st()]
+            op = ["resolve", st(), st(), st(),
+                  rng.choice([[0, 0, 0], [0, 0, 0], [1, 1, 1], [1, 2, 1],
+                              [1, 1, 2], [0, 1, 0], [1, 0, 1]])]
         elif r < 0.44:
             op = ["pickle", rng.randrange(6)]
         elif r < 0.47:
@@ -191,6 +193,15 @@ def plan(rng, tier):
             # read-only operation (everything evicted right before it)
             op = ["@loadfail", rng.randint(1, 6),
                   rng.choice(["err", "poskey"]), op]
+        elif cfg["stored"] and op[0] in MUTATING and rng.random() < 0.06:
+            # ... or in the middle of a WRITE.  What is left of the
+            # container then is not this property's business (a delete that
+            # cannot load the neighbour it has to unlink through leaves the
+            # tree damaged: C17's known finding), so the run ends here -- but
+            # the error exits taken must not over-release or leak anything:
+            # sanitizer and the ledger at quiescence
+            op = ["@loadfail", rng.randint(1, 6),
+                  rng.choice(["err", "poskey"]), op, "w"]
         elif slots and op[0] in MUTATING and rng.random() < 0.3:
             # a held lazy sequence is used once more right after this
             # mutation (what it answers is C15's business; here only the
@@ -603,9 +614,14 @@ def execute(plan, ctx):
                     ctx.fault("mutate-under-cursor")
                 sq = None
             if name == "@loadfail" and conn is not None:
-                if conn.load_fault is None:
+                lf_fired = conn.load_fault is None
+                if lf_fired:
                     ctx.fault("load-fail")
                 conn.load_fault = None
+                if lf_fired and len(op0) > 4:
+                    ctx.fault("load-fail-in-write")
+                    ctx.ev("load-fail-in-write", op[0], out)
+                    break
             if fired:
                 ctx.fault("cmp-raise" if name == "@raise"
                           else "evict-in-compare")
